@@ -2,7 +2,7 @@
 use crate::sexp::*;
 use crate::util::*;
 use bed_utils::bed::map::{GIntervalIndexMap, GIntervalIndexSet, GIntervalMap};
-use bed_utils::bed::{BEDLike, GenomicRange};
+use bed_utils::bed::{BEDLike, GenomicRange, NarrowPeak, BED};
 use bed_utils::coverage::{BinnedCoverage, Coverage, SparseBinnedCoverage, SparseCoverage};
 
 fn q(o: &[Sx]) -> GenomicRange {
@@ -18,14 +18,31 @@ pub fn run_gmap(args: &[Sx]) -> Sx {
             recs.iter().map(|r| (region(r), r.list()[3].u64() as u32)).collect()
         };
         let item = |(g, v): (GenomicRange, &u32)| Sx::L(vec![hex(g.chrom().as_bytes()), a(g.start()), a(g.end()), a(*v)]);
-        for o in args[1].tagged("ops") {
+        // a shadow map built from BED<6> / NarrowPeak views (every strand, name, score) of the same records
+        let mut mv: GIntervalMap<u32> = if recs.is_empty() { GIntervalMap::new() } else {
+            recs.iter().enumerate().map(|(i, r)| (bed6v(&region(r), i), r.list()[3].u64() as u32)).collect() };
+        let key = |(g, v): (GenomicRange, &u32)| (g.chrom().to_string(), g.start(), g.end(), *v);
+        for (opi, o) in args[1].tagged("ops").iter().enumerate() {
             let o = o.list();
             match o[0].atom() {
-                "ins" => m.insert(&q(o), o[4].u64() as u32),
-                "find" => emit(tag("h", m.find(&q(o)).map(item).collect())),
+                "ins" => { m.insert(&q(o), o[4].u64() as u32); if opi % 2 == 0 { mv.insert(&npv(&q(o), opi), o[4].u64() as u32) } else { mv.insert(&bed6v(&q(o), opi), o[4].u64() as u32) } }
+                "find" => {
+                    let qq = q(o);
+                    if let Some(w) = walk_check(&|| m.find(&qq).map(|(g, v)| (g, *v))) { emit(a(format!("ORACLE-FAIL:gmap.find-walked-by-{}", w))); }
+                    let mut h0: Vec<_> = m.find(&qq).map(key).collect(); h0.sort();
+                    for k in 0..3usize {
+                        let mut h1: Vec<_> = m.find(&bed6v(&qq, opi + k)).map(key).collect(); h1.sort();
+                        let mut h2: Vec<_> = mv.find(&npv(&qq, opi + k)).map(key).collect(); h2.sort();
+                        if h1 != h0 || h2 != h0 || m.is_overlapped(&bed6v(&qq, opi + k)) != !h0.is_empty() || mv.is_overlapped(&qq) != !h0.is_empty() { emit(a("ORACLE-FAIL:gmap-lookup-depends-on-record-type/strand/name/score")); break; }
+                    }
+                    emit(tag("h", m.find(&qq).map(item).collect()))
+                }
                 "isov" => emit(a(m.is_overlapped(&q(o)) as u8)),
                 "len" => emit(a(m.len())),
-                "iter" => emit(tag("h", m.iter().map(item).collect())),
+                "iter" => {
+                    if let Some(w) = walk_check(&|| m.iter().map(|(g, v)| (g, *v))) { emit(a(format!("ORACLE-FAIL:gmap.iter-walked-by-{}", w))); }
+                    emit(tag("h", m.iter().map(item).collect()))
+                }
                 _ => panic!("glue: gmap op"),
             }
         }
@@ -52,11 +69,24 @@ pub fn run_iset(args: &[Sx]) -> Sx {
                     let v: Vec<Sx> = s.iter().map(sx_region).collect();
                     let v2: Vec<Sx> = s.clone().into_iter().map(|g| sx_region(&g)).collect();
                     if v != v2 { emit(a("ORACLE-FAIL:iter-and-into_iter-disagree")) }
+                    if let Some(w) = walk_check(&|| s.iter().cloned()) { emit(a(format!("ORACLE-FAIL:iset.iter-walked-by-{}", w))); }
                     emit(tag("it", v))
                 }
-                "find" => emit(tag("h", s.find(&q(o)).map(|g| sx_region(&g)).collect())),
-                "findidx" => emit(tag("h", s.find_index_of(&q(o)).map(a).collect())),
-                "findfull" => emit(tag("h", s.find_full(&q(o)).map(|(g, i)| Sx::L(vec![sx_region(&g), a(*i)])).collect())),
+                "find" => {
+                    let qq = q(o);
+                    if let Some(w) = walk_check(&|| s.find(&qq)) { emit(a(format!("ORACLE-FAIL:iset.find-walked-by-{}", w))); }
+                    emit(tag("h", s.find(&qq).map(|g| sx_region(&g)).collect()))
+                }
+                "findidx" => {
+                    let qq = q(o);
+                    if let Some(w) = walk_check(&|| s.find_index_of(&qq)) { emit(a(format!("ORACLE-FAIL:iset.find_index_of-walked-by-{}", w))); }
+                    emit(tag("h", s.find_index_of(&qq).map(a).collect()))
+                }
+                "findfull" => {
+                    let qq = q(o);
+                    if let Some(w) = walk_check(&|| s.find_full(&qq).map(|(g, i)| (g, *i))) { emit(a(format!("ORACLE-FAIL:iset.find_full-walked-by-{}", w))); }
+                    emit(tag("h", s.find_full(&qq).map(|(g, i)| Sx::L(vec![sx_region(&g), a(*i)])).collect()))
+                }
                 "isov" => emit(a(s.is_overlapped(&q(o)) as u8)),
                 _ => panic!("glue: iset op"),
             }
@@ -72,7 +102,11 @@ pub fn run_imap(args: &[Sx]) -> Sx {
             match o[0].atom() {
                 "get" => emit(s.get(o[1].usize()).map(a).unwrap_or(a("none"))),
                 "len" => emit(a(s.len())),
-                "find" => emit(tag("h", s.find(&q(o)).map(|(g, v)| Sx::L(vec![sx_region(&g), a(*v)])).collect())),
+                "find" => {
+                    let qq = q(o);
+                    if let Some(w) = walk_check(&|| s.find(&qq).map(|(g, v)| (g, *v))) { emit(a(format!("ORACLE-FAIL:imap.find-walked-by-{}", w))); }
+                    emit(tag("h", s.find(&qq).map(|(g, v)| Sx::L(vec![sx_region(&g), a(*v)])).collect()))
+                }
                 "findidx" => emit(tag("h", s.find_index_of(&q(o)).map(|(_, i)| a(*i)).collect())),
                 _ => panic!("glue: imap op"),
             }
@@ -99,7 +133,11 @@ pub fn run_cov(args: &[Sx]) -> Sx {
         let mut d8: Coverage<u8> = Coverage::new(&s);
         let mut sp8: SparseCoverage<u8> = SparseCoverage::new(&s);
         let narrow_live = std::cell::Cell::new(narrow_ok);
-        for o in args[1].tagged("ops") {
+        // shadow counters fed with the same tags as BED<6> / NarrowPeak records of every strand, name and score: the
+        // counts depend on (chrom, start, end) and the multiplicity only
+        let mut dv: Coverage<i64> = Coverage::new(&s);
+        let mut spv: SparseCoverage<i64> = SparseCoverage::new(&s);
+        for (opi, o) in args[1].tagged("ops").iter().enumerate() {
             let o = o.list();
             match o[0].atom() {
                 "ins" => {
@@ -107,6 +145,7 @@ pub fn run_cov(args: &[Sx]) -> Sx {
                     let k = o[4].i64();
                     d.insert(&t, k);
                     sp.insert(&t, k);
+                    if opi % 2 == 0 { dv.insert(&bed6v(&t, opi), k); spv.insert(&npv(&t, opi), k); } else { dv.insert(&npv(&t, opi), k); spv.insert(&bed6v(&t, opi), k); }
                     // the u8 counters are driven only while no per-region count can overflow them
                     if d.get_coverage().iter().any(|c| *c > 250) { narrow_live.set(false); }
                     if narrow_live.get() { d8.insert(&t, k as u8); sp8.insert(&t, k as u8); }
@@ -114,19 +153,26 @@ pub fn run_cov(args: &[Sx]) -> Sx {
                 "insat" => {
                     d.insert_at_index::<GenomicRange>(o[1].usize(), o[2].i64());
                     sp.insert_at_index::<GenomicRange>(o[1].usize(), o[2].i64());
+                    dv.insert_at_index::<BED<6>>(o[1].usize(), o[2].i64());
+                    spv.insert_at_index::<NarrowPeak>(o[1].usize(), o[2].i64());
                     if d.get_coverage().iter().any(|c| *c > 250) { narrow_live.set(false); }
                     if narrow_live.get() { d8.insert_at_index::<GenomicRange>(o[1].usize(), o[2].i64() as u8); sp8.insert_at_index::<GenomicRange>(o[1].usize(), o[2].i64() as u8); }
                 }
                 "reset" => {
                     d.reset();
                     sp.reset();
-                    d8.reset(); sp8.reset();
+                    d8.reset(); sp8.reset(); dv.reset(); spv.reset();
                 }
                 "get" => {
                     emit(Sx::L(vec![a("dense"), total(d.total_count()), a(d.len()), Sx::L(d.get_coverage().iter().map(a).collect())]));
                     emit(Sx::L(vec![a("sparse"), total(sp.total_count()), a(sp.len()), Sx::L(sp.get_coverage_as_vec().iter().map(a).collect())]));
                     if narrow_live.get() && (d8.total_count() != d.total_count() || sp8.total_count() != d.total_count()
                         || d8.get_coverage().iter().map(|x| *x as i64).collect::<Vec<_>>() != *d.get_coverage()) { emit(a("ORACLE-FAIL:u8-counters-disagree-with-i64-counters")); }
+                    if dv.get_coverage() != d.get_coverage() || spv.get_coverage_as_vec() != sp.get_coverage_as_vec() || dv.total_count() != d.total_count() || spv.total_count() != sp.total_count() {
+                        emit(a("ORACLE-FAIL:counts-depend-on-the-tag-record-type/strand/name/score"));
+                    }
+                    if let Some(w) = walk_check(&|| d.regions().cloned()) { emit(a(format!("ORACLE-FAIL:Coverage.regions-walked-by-{}", w))); }
+                    if let Some(w) = walk_check(&|| sp.regions().cloned()) { emit(a(format!("ORACLE-FAIL:SparseCoverage.regions-walked-by-{}", w))); }
                     // the sparse map itself must hold exactly the entries of the vector view
                     for (i, v) in sp.get_coverage().iter() {
                         if !(sp.get_coverage_as_vec()[*i] == *v) { emit(a("ORACLE-FAIL:sparse-map-and-vector-view-disagree")) };
@@ -148,7 +194,9 @@ pub fn run_bcov(args: &[Sx]) -> Sx {
         let s: GIntervalIndexSet = args[1].tagged("regs").iter().map(region).collect();
         let mut d: BinnedCoverage<i64> = BinnedCoverage::new(&s, b);
         let mut sp: SparseBinnedCoverage<i64> = SparseBinnedCoverage::new(&s, b);
-        for o in args[2].tagged("ops") {
+        let mut dv: BinnedCoverage<i64> = BinnedCoverage::new(&s, b);
+        let mut spv: SparseBinnedCoverage<i64> = SparseBinnedCoverage::new(&s, b);
+        for (opi, o) in args[2].tagged("ops").iter().enumerate() {
             let o = o.list();
             match o[0].atom() {
                 "ins" => {
@@ -156,14 +204,19 @@ pub fn run_bcov(args: &[Sx]) -> Sx {
                     let k = o[4].i64();
                     d.insert(&t, k);
                     sp.insert(&t, k);
+                    if opi % 2 == 0 { dv.insert(&bed6v(&t, opi), k); spv.insert(&npv(&t, opi), k); } else { dv.insert(&npv(&t, opi), k); spv.insert(&bed6v(&t, opi), k); }
                 }
                 "reset" => {
                     d.reset();
                     sp.reset();
+                    dv.reset(); spv.reset();
                 }
                 "get" => {
                     emit(Sx::L(vec![a("dense"), total(d.total_count()), Sx::L(d.get_coverage().iter().map(|r| Sx::L(r.iter().map(a).collect())).collect())]));
                     emit(Sx::L(vec![a("sparse"), total(sp.total_count()), a(sp.len()), Sx::L(sp.get_coverage_as_vec().iter().map(a).collect())]));
+                    if dv.get_coverage() != d.get_coverage() || spv.get_coverage_as_vec() != sp.get_coverage_as_vec() || dv.total_count() != d.total_count() || spv.total_count() != sp.total_count() {
+                        emit(a("ORACLE-FAIL:binned-counts-depend-on-the-tag-record-type/strand/name/score"));
+                    }
                 }
                 "len" => {
                     emit(a(d.len()));
@@ -173,6 +226,9 @@ pub fn run_bcov(args: &[Sx]) -> Sx {
                     let r1: Vec<Sx> = d.regions().map(|it| Sx::L(it.map(|g| sx_region(&g)).collect())).collect();
                     let r2: Vec<Sx> = sp.regions().map(|it| Sx::L(it.map(|g| sx_region(&g)).collect())).collect();
                     if !(r1 == r2) { emit(a("ORACLE-FAIL:dense-and-sparse-regions-disagree")) };
+                    if let Some(w) = walk_check(&|| d.regions().map(|it| it.collect::<Vec<_>>())) { emit(a(format!("ORACLE-FAIL:BinnedCoverage.regions-walked-by-{}", w))); }
+                    if let Some(w) = walk_check(&|| sp.regions().map(|it| it.collect::<Vec<_>>())) { emit(a(format!("ORACLE-FAIL:SparseBinnedCoverage.regions-walked-by-{}", w))); }
+                    if let Some(first) = d.regions().next() { if let Some(w) = walk_check(&|| d.regions().next().unwrap()) { let _ = &first; emit(a(format!("ORACLE-FAIL:bins-of-a-region-walked-by-{}", w))); } }
                     emit(tag("regions", r1));
                 }
                 "getregion" => emit(sp.get_region(o[1].usize()).map(|g| sx_region(&g)).unwrap_or(a("none"))),
